@@ -367,12 +367,18 @@ def build_basis(b):
     return d
 
 
+_RESTRICTED_SPELLING = [0]
+
+
 def build_wfn(w):
     d = {}
     if w["basis"] is not None:
         d["basis"] = build_basis(w["basis"])
     if w["restricted"] is not None:
-        d["restricted"] = w["restricted"]
+        # the flag in the spellings a caller's data may hold it in (Python bool, numpy bool, 0/1): all mean the same boolean
+        _RESTRICTED_SPELLING[0] += 1
+        alts = [True, np.True_, 1, np.bool_(1)] if w["restricted"] else [False, np.False_, 0]
+        d["restricted"] = alts[_RESTRICTED_SPELLING[0] % len(alts)]
     for n, s in w["arr"]:
         d[n] = arr_data(n, s)
     for p, t in w["ptr"]:
@@ -1540,6 +1546,27 @@ def check_T(ctx, out, spec, line, model_line):
     r2 = OptimizationResult(**r.dict())
     if not deep_equal(r.dict(), r2.dict()):
         viol(out, "oracle:revalidate", line, detail="re-validating the dumped optimisation result changes it: " + str(first_diff(r.dict(), r2.dict())))
+    # every step is a result object in its own right: a step whose arrays do not fit is refused wherever it stands and whatever the
+    # policy would have kept ("reshapes every array it is given ... or rejects it if the size does not fit")
+    import copy as _copy
+
+    for pos in range(n):
+        for what in ("return_result", "gradient"):
+            bad = _copy.deepcopy(d)
+            step = bad["trajectory"][pos]
+            if what == "return_result":
+                step["driver"] = "gradient"
+                step["return_result"] = [0.1 * k for k in range(7)]  # 7 numbers cannot be (-1, 3)
+            else:
+                step["properties"] = {"calcinfo_natom": 2, "return_gradient": [0.1 * k for k in range(5)]}  # 5 numbers cannot be (2, 3)
+            try:
+                OptimizationResult(**bad)
+                viol(out, "oracle:accepts_misfit", line, f"accepted with a misfitting {what} in step {pos} of {n}", "rejection",
+                     f"trajectory policy {pol}: a step whose {what} does not fit was accepted")
+            except Exception as e:  # noqa
+                if canon_err(e).split()[1] != "Validation":
+                    viol(out, "oracle:error_class", line, canon_err(e), "ValidationError", f"misfitting {what} in step {pos}: not a ValidationError")
+            out.evaluations += 1
 
 
 def check_E(ctx, out, spec, line, model_line):
